@@ -667,6 +667,11 @@ func (r *FileRestorer) applyDecorations(node ast.Node, name string, decorations 
 
 		// for newline decorations and also line-comments, add a newline
 		if isLineComment || isNewline {
+			if int(r.cursor) == r.base {
+				// A newline at the very start of the file: offset 0 is already the start of the
+				// first line, so step over the newline character before recording the next line.
+				r.cursor++
+			}
 			lineOffset := int(r.cursor) - r.base // remember lines are relative to the file base
 			r.lines = append(r.lines, lineOffset)
 			r.cursor++
